@@ -40,8 +40,25 @@ def main() -> int:
     except Infra as e:
         print(f"INFRASTRUCTURE FAILURE [{prop}]: {e}", file=sys.stderr)
         return 2
-    except Exception:
+    except Exception as e:
         traceback.print_exc()
+        frames = traceback.extract_tb(e.__traceback__)
+        src = str(Path(SRC).resolve())
+        if frames and str(Path(frames[-1].filename).resolve()).startswith(src):
+            # the IMPLEMENTATION raised on an input that it accepts on the unchanged tree (all checks complete
+            # there for every seed): the property is no longer shown to hold; the replay names where it raised
+            import json
+            d = HERE.parent / "replays" / prop
+            d.mkdir(parents=True, exist_ok=True)
+            rp = d / f"unproved_{args.tier}_{args.seed}.json"
+            rp.write_text(json.dumps({
+                "property": prop, "kind": "no-failing-input-found",
+                "no_longer_checks": [{"kind": "implementation-raised-inside-the-check",
+                                      "error": f"{type(e).__name__}: {e}",
+                                      "where": [f"{f.filename}:{f.lineno} {f.name}" for f in frames[-6:]],
+                                      "rerun": f"./check {prop} --tier {args.tier} --seed {args.seed}"}]}, indent=1) + "\n")
+            print(f"VIOLATION property={prop} replay={rp} no-failing-input-found")
+            return 1
         print(f"INFRASTRUCTURE FAILURE [{prop}]: harness crashed", file=sys.stderr)
         return 2
 
